@@ -34,9 +34,31 @@ def main():
         d = open(dp).read()
         d = re.sub(r"(<!-- MATRIX:SEEDS -->\n).*?(<!-- /MATRIX:SEEDS -->)", lambda m: m.group(1) + seeds.strip() + "\n" + m.group(2), d, flags=re.S)
         d = re.sub(r"(<!-- MATRIX:REFS -->\n).*?(<!-- /MATRIX:REFS -->)", lambda m: m.group(1) + refs.strip() + "\n" + m.group(2), d, flags=re.S)
+        d = re.sub(r"(<!-- RULES:INVENTORY -->\n).*?(<!-- /RULES:INVENTORY -->)", lambda m: m.group(1) + rules_table().strip() + "\n" + m.group(2), d, flags=re.S)
         open(dp, "w").write(d)
         return
     tables()
+
+
+def rules_table():
+    """every rule of every property as it is registered (own rules, single shared rules, bundles)"""
+    import importlib, sys
+    sys.path.insert(0, VERIF)
+    from rules import share
+    lines = ["| rule | what it decides |", "|------|-----------------|"]
+    n = 0
+    for i in range(1, 15):
+        mod = importlib.import_module("rules.p_c%02d" % i)
+        rules = list(mod.RULES)
+        for spec in getattr(mod, "DEFERRED_BUNDLES", []):
+            rules += share.bundle(spec["prop"], spec["tag"], spec["module"], only=spec.get("only"), skip=spec.get("skip", ()), why=spec.get("why", ""))
+        for rid, doc, fn in rules:
+            n += 1
+            d = " ".join(doc.split())
+            lines.append("| %s | %s |" % (rid, (d if len(d) <= 220 else d[:219] + "…").replace("|", "\\|")))
+    lines.append("")
+    lines.append("%d rule instances (a rule shared by several properties is counted once per property)." % n)
+    return "\n".join(lines) + "\n"
 
 
 def tables():
